@@ -37,7 +37,24 @@ ELIGIBLE = {
     "tl": ("validator:tl",), "set_sup": ("factory:1", "factory:2"),
     "set_dv": ("validator:v",), "set_child": (), "reg": (), "unreg": (), "probe": (),
     "del_items": (), "set_items": ("validator:items",),
+    "set_sv": ("validator:sv",),
 }
+
+# 'sv' of objs[0] and objs[1] are kept equal by sync_trait(mutual=True): the 2nd
+# validation during a set_sv is the partner's, made by the library's own change
+# handler while it propagates the value (a deciding callback of the NESTED
+# assignment only)
+NESTED = {("set_sv", "validator:sv")}
+
+
+def mask_sv(snap, idx):
+    """Snapshot without the 'sv' values of the objects in idx."""
+    objs = []
+    for j, (vals, reads, pop) in enumerate(snap[0]):
+        if j in idx:
+            vals = dict(vals, sv=None)
+        objs.append((vals, reads, pop))
+    return (objs, snap[1], snap[2])
 
 
 class World:
@@ -74,6 +91,7 @@ class World:
         CV, CA, CB = mk_checked("validator:v"), mk_checked("validator:uA"), mk_checked("validator:uB")
         CI, CD, CS = (mk_checked("validator:items"), mk_checked("validator:d"),
                       mk_checked("validator:s"))
+        CSV = mk_checked("validator:sv")
 
         class IFoo(T.Interface):
             pass
@@ -136,7 +154,7 @@ class World:
         with warnings.catch_warnings():
             warnings.simplefilter("ignore")
             ns = {
-                "uid": T.Int(), "v": CV(), "u": T.Union(CA(), CB()), "dflt": T.Any(),
+                "uid": T.Int(), "v": CV(), "sv": CSV(), "u": T.Union(CA(), CB()), "dflt": T.Any(),
                 "fac": T.Any(factory=fac), "p": T.Property(),
                 "cp": T.Property(observe="v"), "items": T.List(CI()),
                 "d": T.Dict(T.Str, CD()), "s": T.Set(CS()), "sup": T.Supports(IFoo),
@@ -151,6 +169,7 @@ class World:
         self.objs = [W(uid=i) for i in range(n)]
         for i, o in enumerate(self.objs):
             o.partner = self.objs[(i + 1) % n]
+        self.objs[0].sync_trait("sv", self.objs[1], mutual=True)
         from ..values import Coerce
         tlv = mk_point_validator(env, "validator:tl")
         self.tl = TraitList([1, 2], item_validator=tlv)
@@ -211,6 +230,8 @@ class World:
             f = lambda: setattr(o, "v", val)                      # noqa: E731
         elif k == "set_u":
             f = lambda: setattr(o, "u", val)                      # noqa: E731
+        elif k == "set_sv":
+            f = lambda: setattr(o, "sv", val)                     # noqa: E731
         elif k == "read_dflt":
             f = lambda: plain(o.dflt)                             # noqa: E731
         elif k == "set_dflt":
@@ -278,7 +299,7 @@ class World:
             d = o.__dict__
             # read-equivalence: an attribute that was never materialised is the same
             # as one holding its default
-            vals = {"v": 0, "u": 0, "dflt": plain([1, 2]), "fac": plain({"made": 1}), "_pv": None,
+            vals = {"v": 0, "sv": 0, "u": 0, "dflt": plain([1, 2]), "fac": plain({"made": 1}), "_pv": None,
                     "items": plain([]), "d": plain({}), "s": plain(set()), "dv": None}
             for name in list(vals):
                 if name in d:
@@ -399,8 +420,11 @@ class Prop:
             "custom validators, a two-alternative Union, default methods and factories, property "
             "getters/setters, cached observed property, List/Dict/Set item validators at the k-th "
             "item, stand-alone TraitList, Supports with a two-factory adapter chain, delegation, "
-            "observed child links, handler (un)registration; static, on_trait_change and observe "
-            "handlers). For each sampled history the fault space is ENUMERATED: every op i x "
+            "observed child links, an attribute kept equal on two objects by sync_trait(mutual) "
+            "whose partner-side validation fails inside the library's own propagation handler "
+            "(nested deciding callback: partner untouched, outer op complete, pair realigned by "
+            "the next successful assignment), handler (un)registration; static, on_trait_change "
+            "and observe handlers). For each sampled history the fault space is ENUMERATED: every op i x "
             "every callback site that fired in it on the fault-free twin (restricted to sites "
             "that decide that op, plus all change handlers) x every ordinal k <= count x each of "
             "TraitError, ValueError, AttributeError, RuntimeError is injected on a fresh twin. "
@@ -421,9 +445,9 @@ class Prop:
         nobj = c.randint(2, 3)
         handlers = []
         names_otc = ["v", "items", "items_items", "d_items", "s_items", "p", "cp", "dv", "u", "child",
-                     "dflt", "sup"]
+                     "dflt", "sup", "sv"]
         names_obs = ["v", "items.items", "d.items", "s.items", "child.v", "cp", "p", "items", "u",
-                     "child", "child.items.items"]
+                     "child", "child.items.items", "sv"]
         for j in range(c.randint(2, 6)):
             mech = c.choice(["otc", "obs"])
             handlers.append({"id": "h%d" % j, "mech": mech, "o": c.randrange(nobj),
@@ -443,12 +467,12 @@ class Prop:
         ops = []
         for _ in range(nops):
             o = r.randrange(nobj)
-            k = r.choice(["set_v", "set_v", "set_u", "read_dflt", "set_dflt", "read_fac", "read_p",
+            k = r.choice(["set_v", "set_v", "set_sv", "set_sv", "set_u", "read_dflt", "set_dflt", "read_fac", "read_p",
                           "set_p", "read_cp", "items", "items", "items", "del_items", "set_items",
                           "d", "d", "s", "s", "tl", "set_sup", "set_dv", "set_child", "reg", "unreg",
                           "probe"])
             op = {"k": k, "o": o}
-            if k in ("set_v", "set_u", "set_dflt", "set_p", "set_dv", "probe"):
+            if k in ("set_v", "set_sv", "set_u", "set_dflt", "set_p", "set_dv", "probe"):
                 op["v"] = item(0.12 if k not in ("set_dflt", "set_p", "probe") else 0.0)
             elif k in ("items", "tl"):
                 op["how"] = r.choice(["append", "extend", "extend", "iadd", "insert", "setslice",
@@ -516,6 +540,7 @@ class Prop:
                 env.end_op()
                 recs.append({"outcome": res, "key": outcome_key(res), "snap": w.snapshot(),
                              "events": sorted(map(repr, w.events)), "counts": counts,
+                             "events_raw": list(w.events),
                              "fired": env.fired["raise"] > fired0, "routed": list(w.routed)})
         finally:
             oapi.pop_exception_handler()
@@ -559,7 +584,10 @@ class Prop:
                         if only is not None and list(inj) != list(only):
                             continue
                         injections += 1
-                        self.check_injection(trace, A, inj, deciding, skip_runs, env)
+                        if (k, site) in NESTED and nth >= 2:
+                            self.check_nested(trace, A, inj, skip_runs, env)
+                        else:
+                            self.check_injection(trace, A, inj, deciding, skip_runs, env)
             gc.collect()
         env.log("history", (len(ops), injections))
         env.nontrivial = injections > 0
@@ -639,6 +667,78 @@ class Prop:
                                     data=list(inj))
         env.token(op["k"], site, min(nth, 3), exc, deciding)
         env.cover(op["k"], site, min(nth, 3), exc)
+        env.fired["raise"] += 1
+        env.planned["raise"] += 1
+
+    def check_nested(self, trace, A, inj, skip_runs, env):
+        """The partner's validator raises while the library's synchronisation
+        handler copies the new value to it: the nested assignment has no effect
+        (the partner keeps its value, its handlers stay silent), the outer
+        operation is complete, and from the next successful assignment to either
+        side on, everything is as on the fault-free twin (the pair is realigned)."""
+        i, site, nth, exc = inj
+        ops = trace["ops"]
+        op = ops[i]
+        cfg = trace["config"]
+        B, envB = self.run_twin(trace, None, inject=inj)
+        env.seq += envB.seq
+        env.log("twinB", (list(inj), envB.digest()))
+        env.oracle_evals += 1
+        ra, rb = A[i], B[i]
+        what = "op %d (%s) with %s raised at call %d of %s (the synchronised partner's " \
+               "validation)" % (i, describe(op), exc, nth, site)
+        if not rb["fired"]:
+            raise Violation("C19.fault-not-reached", "%s: not reached on the faulted twin" % what,
+                            i, data=list(inj))
+        src = op["o"] % cfg["nobj"]
+        partner = 1 - src
+        if rb["key"] != ra["key"]:
+            raise Violation("C19.handler-fault-escaped",
+                            "%s: the outer operation's outcome changed from %r to %r"
+                            % (what, ra["key"], rb["key"]), i, data=list(inj))
+        pre = self.skip_run(trace, i, skip_runs, env)["pre"]
+        if not same_snap(mask_sv(rb["snap"], {partner}), mask_sv(ra["snap"], {partner})):
+            raise Violation("C19.incomplete-after-handler-fault",
+                            "%s: the outer operation is not complete: %s"
+                            % (what, diff_snap(ra["snap"], rb["snap"])), i, data=list(inj))
+        if rb["snap"][0][partner][0]["sv"] != pre[0][partner][0]["sv"]:
+            raise Violation("C19.half-updated",
+                            "%s: the partner's value changed from %r to %r although its "
+                            "validation failed" % (what, pre[0][partner][0]["sv"],
+                                                   rb["snap"][0][partner][0]["sv"]), i,
+                            data=list(inj))
+        partner_hids = {h["id"] for h in cfg["handlers"]
+                        if h["name"] == "sv" and h["o"] % cfg["nobj"] == partner}
+        want = sorted(repr(e) for e in ra["events_raw"] if e[0] not in partner_hids)
+        if rb["events"] != want:
+            raise Violation("C19.handlers-skipped",
+                            "%s: handler calls %s, expected %s (the fault-free calls without the "
+                            "partner's own sv handlers)" % (what, rb["events"], want), i,
+                            data=list(inj))
+        realigned = False
+        for j in range(i + 1, len(ops)):
+            a, b = A[j], B[j]
+            if (not realigned and ops[j]["k"] == "set_sv" and ops[j]["o"] % cfg["nobj"] < 2
+                    and a["key"][0] == "ok" and b["key"][0] == "ok"):
+                realigned = True
+            if a["key"] != b["key"]:
+                raise Violation("C19.suffix-differs",
+                                "%s: later op %d (%s) has outcome %r, on the fault-free twin %r"
+                                % (what, j, describe(ops[j]), b["key"], a["key"]), i,
+                                data=list(inj))
+            sa, sb = a["snap"], b["snap"]
+            if not realigned:
+                sa, sb = mask_sv(sa, {0, 1}), mask_sv(sb, {0, 1})
+            if not same_snap(sa, sb) or (realigned and a["events"] != b["events"]):
+                raise Violation("C19.suffix-differs",
+                                "%s: later op %d (%s) behaves differently from the fault-free "
+                                "twin%s: %s" % (what, j, describe(ops[j]),
+                                                " (the pair was realigned by a successful "
+                                                "assignment)" if realigned else "",
+                                                diff_rec(dict(a, snap=sa), dict(b, snap=sb))), i,
+                                data=list(inj))
+        env.token(op["k"], site, "nested", exc, True)
+        env.cover(op["k"], site, "nested", exc)
         env.fired["raise"] += 1
         env.planned["raise"] += 1
 
